@@ -178,6 +178,7 @@ def verify_function(ctx, c, section, only_prop):
     if spec is None and c.mode != "post":
         section["errors"].append("spec function %s of %s missing in the sidecar" % (c.spec, c.qual))
         return
+    ctx.hidden_state = []
     if c.mode == "post":
         from .postcheck import PostCheck
         ls = PostCheck(ctx, c)
@@ -192,6 +193,12 @@ def verify_function(ctx, c, section, only_prop):
     except Exception:
         section["errors"].append("PyVC crashed on %s: %s" % (c.qual, traceback.format_exc()[-2500:]))
         return
+    for hname, hline, deco in sorted(set(ctx.hidden_state)):
+        section["obligations"].append({"name": "%s/frame/undeclared-module-state:%s" % (c.name, hname), "status": C.FAILED, "backend": "closed-eval", "time_s": 0,
+                                       "goal": "%s depends on the declared state only" % c.qual,
+                                       "detail": "line %d: calls %s(), which is memoised by @%s: results are kept across calls and loads (keyed by == and hash)"
+                                                 % (hline, hname, deco), "props": c.props, "witness_families": c.d.get("families", []),
+                                       "counterexample": {"helper": hname, "decorator": deco}})
     n_real = 0
     agg = {}
     for ob in ls.obs:
